@@ -163,6 +163,52 @@ def check_group_pair(arg):
     return fails, 1
 
 
+IN_MEMBERS = {"ios": [["host 10.0.0.1"], ["host 10.0.0.1", "host 99.0.0.1"], ["10.0.0.0 255.255.255.0"], ["10.0.0.0 255.255.255.128", "10.0.0.128 255.255.255.128"],
+                      ["10.0.0.0 255.255.254.0"], ["host 99.0.0.1", "host 10.0.0.1"]],
+              "nxos": [["10.0.0.1/32"], ["10.0.0.1/32", "99.0.0.1/32"], ["10.0.0.0/24"], ["10.0.0.0/25", "10.0.0.128/25"], ["10.0.0.0/23"], ["99.0.0.1/32", "10.0.0.1/32"]]}
+
+
+def check_in_groups(arg):
+    """the `in` operator with grouped operands on either side: a positive answer implies that every address of the left operand belongs to the right one
+    (TypeError - the documented refusal for operands without a single network - is not an answer)"""
+    import cisco_acl
+    platform, kind_l, il, kind_r, ir = arg
+    M = IN_MEMBERS[platform]
+    head = "object-group network " if platform == "ios" else "object-group ip address "
+    g = "object-group" if platform == "ios" else "addrgroup"
+    cubes = lambda ms: [c for m in ms for c in cisco_ref.read_address(m.split(), 0, platform, None, mask_is_subnet=(platform == "ios"))[0]]
+
+    def mk(kind, ms, name):
+        if kind == "AddrGroup":
+            return cisco_acl.AddrGroup("\n".join([head + name] + ms), platform=platform)
+        if kind == "AddressAg":
+            return cisco_acl.AddressAg(ms[0], platform=platform)
+        if kind == "Address-group":
+            a = cisco_acl.Address(f"{g} {name}", platform=platform)
+            a.items = [cisco_acl.Address(cisco_acl.AddressAg(m, platform=platform).prefix, platform=platform) for m in ms]
+            return a
+        return cisco_acl.Address(cisco_acl.AddressAg(ms[0], platform=platform).prefix, platform=platform)
+    if kind_l in ("AddressAg", "Address") and len(M[il]) > 1 or kind_r in ("AddressAg", "Address") and len(M[ir]) > 1:
+        return [], 0
+    if ("Address" in kind_l and "Address" not in kind_r.replace("AddressAg", "")) and kind_l != "AddressAg":
+        pass
+    left, right = mk(kind_l, M[il], "L"), mk(kind_r, M[ir], "R")
+    try:
+        got = left in right
+    except TypeError:
+        return [], 1
+    except Exception as ex:
+        got = f"{type(ex).__name__}: {ex}"
+    want = sets.union_subset(cubes(M[il]), cubes(M[ir])) is None
+    if got is True and not want or not isinstance(got, bool):
+        return [dict(key=f"bounded/{kind_r}.__contains__:grouped:{'wrong-yes' if got is True else 'error'}",
+                     what=f"{platform}: {kind_l}{M[il]} in {kind_r}{M[ir]} = {got}, but not every address of the left side belongs to the right side",
+                     inputs=dict(platform=platform, left=[kind_l, M[il]], right=[kind_r, M[ir]]),
+                     cmd=("import sys; sys.path.insert(0, 'props'); import C13\n"
+                          f"fails, _ = C13.check_in_groups({arg!r})\nprint([f['what'] for f in fails]); sys.exit(1 if fails else 0)\n"))], 1
+    return [], 1
+
+
 def check_group_random(seed):
     """seeded groups whose members have different prefix lengths, anywhere in the address space, against single networks:
     crafted near misses (the leading bits of one member read at another member's length), true sub-networks, random ones"""
@@ -299,6 +345,19 @@ def main(chk):
             chk.finding(f["key"], f["what"], inputs=f["inputs"], cmd=f.get("cmd"), key=f["key"])
     chk.add_bounded("single networks against groups whose members have different prefix lengths (crafted near misses, sub-networks, hosts)", sum(d for _, d in res),
                     sum(d for _, d in res), f"{len(seeds)} x 40 seeded groups of 2..3 members with distinct prefix lengths 4..30", viol, time.time() - t0, [seeds[0]], exhaustive=False)
+    t0 = time.time()
+    icases = [(p, kl, il, kr, ir) for p in ("ios", "nxos") for kl, kr in (("AddrGroup", "AddrGroup"), ("AddrGroup", "AddressAg"), ("AddressAg", "AddrGroup"),
+                                                                           ("Address-group", "Address"), ("Address-group", "Address-group"), ("Address", "Address-group"))
+              for il in range(6) for ir in range(6)]
+    res = pmap(check_in_groups, icases)
+    viol = 0
+    for fails, _ in res:
+        for f in fails:
+            viol += 1
+            chk.finding(f["key"], f["what"], inputs=f["inputs"], cmd=f.get("cmd"), key=f["key"])
+    chk.add_bounded("`in` with grouped operands: a positive answer implies true containment", len(icases), sum(d for _, d in res),
+                    "6 member lists on each side x 6 operand-kind pairs (AddrGroup, AddressAg, Address with members, plain Address) x 2 platforms", viol, time.time() - t0,
+                    [list(icases[1])], exhaustive=True)
     t0 = time.time()
     wseeds = [chk.seed * 1000 + 500 + i for i in range(16 if chk.tier == "quick" else 160)]
     res = pmap(check_wild_random, wseeds)
